@@ -26,7 +26,7 @@ for pid in allp:
 na = [dict(property_id=p, reason=props.NOT_APPLICABLE.get(p, 'not yet covered by a check in this development (work in progress); see DESIGN.md')) for p in allp if p not in props.PROPS]
 m = dict(
     version=1,
-    setup_cmd='cd /verif/coq && coq_makefile -f _CoqProject -o Makefile && make -j16 && cd /verif/harness && cp /repo/go.sum . && GOFLAGS=-mod=mod GOPROXY=off GOSUMDB=off GOTOOLCHAIN=local go build -tags verif -o bin/wharness ./cmd/wharness',
+    setup_cmd='cd /verif/coq && coq_makefile -f _CoqProject -o Makefile && make -j16 && cd /verif/harness && cp /repo/go.sum . && GOFLAGS=-mod=mod GOPROXY=off GOSUMDB=off GOTOOLCHAIN=local go build -tags verif -o bin/wharness ./cmd/wharness && CGO_ENABLED=1 GOFLAGS=-mod=mod GOPROXY=off GOSUMDB=off GOTOOLCHAIN=local go build -race -tags verif -o bin/wharness_race ./cmd/wharness',
     hooks=dict(guard='verif', enable='go build -tags verif (the harness is built with it on every check)',
                baseline_off_cmd='cd /repo && GOFLAGS=-mod=mod GOPROXY=off GOSUMDB=off go test -vet=off -count=1 ./...',
                source_commits=hooks_commits, add_only=True),
